@@ -35,7 +35,8 @@ def chunk_decoder_checks(ch: Checker, r_carry: str, r_split: str, r_skip: str) -
     W_SIZE, W_DATA = 'self.state == chunkParserStates.WAITING_FOR_SIZE', 'self.state == chunkParserStates.WAITING_FOR_DATA'
     bad_carry = bad_split = None
     n_size = n_data = 0
-    skip_sites: Dict[int, Tuple[ast.AST, bool, List[str]]] = {}
+    skip_sites: Dict[Any, Tuple[ast.AST, bool, List[str], str]] = {}
+    skip_hits: List[Tuple[ast.AST, bool, List[str], str, int]] = []
     complete_bad = None
     for p in fpaths(g):
         ch.paths += 1
@@ -43,6 +44,20 @@ def chunk_decoder_checks(ch: Checker, r_carry: str, r_split: str, r_skip: str) -
             continue
         sym = Sym(p)
         f = allfacts(p)
+        # fixed-width skips of the piece, in whatever state they happen
+        state_lab = 'WAITING_FOR_SIZE' if f.get(W_SIZE) is True else 'WAITING_FOR_DATA' if f.get(W_DATA) is True else 'other state'
+        for j, st in p.stmts():
+            if isinstance(st, ast.Assign) and isinstance(st.targets[0], ast.Name) and isinstance(st.value, ast.Subscript) and isinstance(st.value.slice, ast.Slice) \
+                    and norm(st.value.value) == norm(st.targets[0]) and st.value.slice.upper is None and st.value.slice.lower is not None:
+                k = ce.try_eval(m, st.value.slice.lower)
+                if isinstance(k, int) and k > 0:
+                    X = norm(st.targets[0])
+                    facts = allfacts(p, j)
+                    present = any(v is True and kf.replace(' ', '') in ('%s.startswith(CRLF)' % X, 'len(%s)>=%d' % (X, k), 'len(%s)>=len(CRLF)' % X, '%s[:%d]==CRLF' % (X, k), '%s[:len(CRLF)]==CRLF' % X)
+                                  for kf, v in facts.items())
+                    skip_hits.append((st, present, p.describe(20), state_lab, id(p)))
+                    prev = skip_sites.get((id(st), state_lab))
+                    skip_sites[(id(st), state_lab)] = (st, (prev[1] if prev else True) and present, p.describe(20), state_lab)
         if f.get(W_SIZE) is True:
             n_size += 1
             # carry-in: the line finder sees self.chunk + raw
@@ -121,24 +136,11 @@ def chunk_decoder_checks(ch: Checker, r_carry: str, r_split: str, r_skip: str) -
             # C03.4: chunk completion and the CRLF after the data
             completed = f.get('len(self.chunk) == self.size') is True
             if completed:
-                skipped = False
-                for j, st in p.stmts():
-                    if isinstance(st, ast.Assign) and isinstance(st.targets[0], ast.Name) and isinstance(st.value, ast.Subscript) and isinstance(st.value.slice, ast.Slice) \
-                            and norm(st.value.value) == norm(st.targets[0]) and st.value.slice.upper is None and st.value.slice.lower is not None:
-                        k = ce.try_eval(m, st.value.slice.lower)
-                        if isinstance(k, int) and k > 0:
-                            # fixed-width skip of k bytes
-                            X = norm(st.targets[0])
-                            facts = allfacts(p, j)
-                            present = any(v is True and kf.replace(' ', '') in ('%s.startswith(CRLF)' % X, 'len(%s)>=%d' % (X, k), 'len(%s)>=len(CRLF)' % X, '%s[:%d]==CRLF' % (X, k), '%s[:len(CRLF)]==CRLF' % X)
-                                          for kf, v in facts.items())
-                            skipped = skipped or present
-                            prev = skip_sites.get(id(st))
-                            skip_sites[id(st)] = (st, (prev[1] if prev else True) and present, p.describe(20))
+                skipped = any(ok_ for (stx, ok_, w_, lab_, pid) in skip_hits if pid == id(p))
                 if not skipped:
                     # shortfall recorded?  any store to a parser field other than the usual ones
                     recorded = any(chn.startswith('self.') and chn not in ('self.chunk', 'self.body', 'self.state', 'self.size') for j, st in p.stmts() for chn, kind, node in attr_effects(st))
-                    unguarded_skip = any(not v[1] for v in skip_sites.values())
+                    unguarded_skip = any(not h[1] for h in skip_hits if h[4] == id(p))
                     if not recorded and not unguarded_skip:
                         complete_bad = ('a chunk is completed (state advances) on a path where the CRLF that follows its data was neither consumed nor remembered as still owed: '
                                         'when the piece ends between the data and its CRLF (or inside it), the leftover CR/LF is later read as an empty size line and the rest of the body is parked', p.describe(22))
@@ -146,10 +148,10 @@ def chunk_decoder_checks(ch: Checker, r_carry: str, r_split: str, r_skip: str) -
              bad_carry[0] if bad_carry else 'no WAITING_FOR_SIZE path', witness=bad_carry[1] if bad_carry else None)
     ch.check(bad_split is None and n_data > 0, r_split, proc, 'chunk data split', 'chunk data: += piece[:missing], piece = piece[missing:] (%d path(s))' % n_data,
              bad_split[0] if bad_split else 'no WAITING_FOR_DATA path', witness=bad_split[1] if bad_split else None)
-    for st, ok, wit in skip_sites.values():
-        ch.check(ok, r_skip, proc, st, 'fixed-width skip guarded by a presence test',
+    for st, ok, wit, lab_ in skip_sites.values():
+        ch.check(ok, r_skip, proc, '%s [in %s]' % (norm(st), lab_), 'fixed-width skip guarded by a presence test',
                  'a fixed number of bytes is dropped from the current piece without checking that they are there: when the piece ends right after the chunk data the CRLF arrives '
-                 'with the next piece and is then read as an empty size line (decoder stalls); trailer lines after the last chunk are mangled the same way', witness=wit)
+                 'with the next piece and is then read as an empty size line (decoder stalls); trailer lines after the last chunk are mangled the same way', witness=wit, line=st.lineno)
     if complete_bad:
         ch.bad(r_skip, proc, 'chunk completed without its CRLF', complete_bad[0], witness=complete_bad[1])
     if not skip_sites and not complete_bad:
@@ -166,6 +168,8 @@ def run(ch: Checker) -> None:
     ch.rule('C03.3', 'complementary split points: _process_body takes raw[:missing] and returns raw[missing:] with the same `missing` bounded by Content-Length minus what is held; '
                      'ChunkParser adds piece[:missing] to the held chunk and continues with piece[missing:]', 2)
     ch.rule('C03.4', 'no unchecked fixed-width skip in the chunk decoder; a chunk is not completed without its CRLF consumed or the shortfall recorded', 1)
+    ch.rule('C03.6', 'completion typestate: HttpParser enters COMPLETE only (a) when the chunk decoder is COMPLETE, (b) when len(body) reached Content-Length, (c) from HEADERS_COMPLETE with no input left '
+                     'and NO body announced (neither Content-Length > 0 nor chunked), (d) for a bare response line followed by CRLF', 3)
     ch.rule('C03.5', 'dispatch: INITIALIZED -> _process_line, LINE_RCVD/RCVING_HEADERS -> _process_headers, HEADERS_COMPLETE/RCVING_BODY -> _process_body; chunk states WAITING_FOR_SIZE/WAITING_FOR_DATA both handled', 2)
 
     parse = prog.own_method('HttpParser', 'parse')
@@ -275,6 +279,7 @@ def run(ch: Checker) -> None:
     ch.check(bad3 is None and n3 > 0, 'C03.3', pb, 'body split', 'body += raw[:missing]; remainder raw[missing:] on %d path(s)' % n3, bad3[0] if bad3 else 'no Content-Length path', witness=bad3[1] if bad3 else None)
 
     # ---------------- chunk decoder: C03.1 (carry), C03.3 (split), C03.4 (skip)
+    completion_typestate_check(ch, 'C03.6')
     chunk_decoder_checks(ch, 'C03.1', 'C03.3', 'C03.4')
 
     # ---------------- C03.5 dispatch
@@ -314,3 +319,52 @@ def run(ch: Checker) -> None:
     tests = [norm(t.test) for t in walk_no_nested(proc.node) if isinstance(t, ast.If)]
     ch.check(any('WAITING_FOR_SIZE' in t for t in tests) and any('WAITING_FOR_DATA' in t for t in tests), 'C03.5', proc, 'chunk state dispatch',
              'both non-final chunk states handled', 'ChunkParser.process does not handle both WAITING_FOR_SIZE and WAITING_FOR_DATA')
+
+
+def completion_typestate_check(ch: Checker, rule: str) -> None:
+    """every store self.state = COMPLETE in HttpParser is justified by the facts on every path that reaches it"""
+    prog = ch.prog
+    hp = prog.class_named('HttpParser')
+    n = 0
+    for fn in hp.methods.values():
+        stores = [st for st in walk_no_nested(fn.node) if isinstance(st, ast.Assign) and len(st.targets) == 1 and attr_chain(st.targets[0]) == 'self.state'
+                  and norm(st.value) == 'httpParserStates.COMPLETE']
+        if not stores:
+            continue
+        g = cfg_of(fn, prog, exc_edges=False)
+        verdict: Dict[int, Tuple[ast.AST, Optional[str], List[str], str]] = {}
+        for p in fpaths(g):
+            ch.paths += 1
+            for i, st in p.stmts():
+                if not any(st is x for x in stores):
+                    continue
+                fd = allfacts(p, i)
+
+                def f(*names: str) -> Optional[bool]:
+                    for nm in names:
+                        if nm in fd:
+                            return fd[nm]
+                    return None
+                why = None
+                if f('self.chunk.state == chunkParserStates.COMPLETE') is True:
+                    why = 'chunk decoder complete'
+                elif any(v is True and k.replace(' ', '').startswith(('len(self.body)==', 'len(self.body)>=')) and 'content-length' in k.lower() for k, v in fd.items()):
+                    why = 'Content-Length reached'
+                elif f('self.state == httpParserStates.LINE_RCVD') is True and any(v is True and k.replace(' ', '').endswith('==CRLF') for k, v in fd.items()):
+                    why = 'bare response line'
+                else:
+                    no_cl = f('self._content_expected', 'self.content_expected') is False
+                    no_te = f('self._is_chunked_encoded', 'self.is_chunked_encoded') is False
+                    if f('self.body_expected') is False or (no_cl and no_te):
+                        why = 'no body announced'
+                prev = verdict.get(id(st))
+                if prev is None or (prev[1] is not None and why is None):
+                    verdict[id(st)] = (st, why, p.describe(20) if why is None else [], ', '.join('%s=%s' % kv for kv in fd.items() if 'expected' in kv[0] or 'chunk' in kv[0] or 'state' in kv[0])[:200])
+        for st, why, wit, facts in verdict.values():
+            n += 1
+            ch.check(why is not None, rule, fn, '%s (COMPLETE store %d)' % (norm(st), n), 'COMPLETE justified on every path (%s)' % why,
+                     'the parser is marked COMPLETE on a path where none of {chunk decoder complete, Content-Length reached, no body announced, bare response line} is established '
+                     '(facts: %s): a message whose body was announced but has not arrived yet is treated as complete, the head is acted on without its body and the body bytes '
+                     'are later read as the next message' % (facts or 'none'), witness=wit, line=st.lineno)
+    if n == 0:
+        ch.bad(rule, None, 'COMPLETE stores', 'no store self.state = httpParserStates.COMPLETE found in HttpParser', module_rel='proxy/http/parser/parser.py')
